@@ -217,8 +217,7 @@ def run(shard, seed):
         k += 1
         if v:
             prev = _PREV.get(_key(prog)) if _key(prog) is not None else None
-            if prev is not None and "previous" not in v["program"]:
-                v["program"] = dict(v["program"], previous=prev)
+            sup.with_history(v, prev)
             res.violations.append(v)
             if res.full:
                 break
